@@ -65,7 +65,13 @@ class Trace:
         return [self.head()] + [e.line() for e in self.events]
 
     def with_events(self, events, name=None):
-        return Trace(name or self.name, self.hdr_max_pfn, self.cores, events, self.classing)
+        t = Trace(name or self.name, self.hdr_max_pfn, self.cores, events, self.classing)
+        times = getattr(self, "times", None)
+        if times is not None:            # a sub-sequence of a tied trace keeps the stamps of its events
+            at = {id(e): x for e, x in zip(self.events, times)}
+            if all(id(e) in at for e in events):
+                t.times = [at[id(e)] for e in events]
+        return t
 
 
 def parse_text(lines):
@@ -95,14 +101,15 @@ def write_binary(trace, path, rng=None):
     so the parser's sort by time is what restores the order."""
     pages = []           # (cpu, [entry ints])
     open_page = {}
+    times = getattr(trace, "times", None)    # tied timestamps (see with_ties): whole seconds, non-decreasing
     for i, ev in enumerate(trace.events):
         pg = open_page.get(ev.cpu)
-        if pg is None or len(pg[1]) >= ENTRIES or (rng is not None and rng.random() < 0.02):
+        if pg is None or len(pg[1]) >= ENTRIES or (rng is not None and times is None and rng.random() < 0.02):
             pg = (ev.cpu, [])
             pages.append(pg)
             open_page[ev.cpu] = pg
-        pg[1].append(entry_bits((i + 1) * 1000000, ev))
-    if rng is not None:
+        pg[1].append(entry_bits((times[i] if times else i + 1) * 1000000, ev))
+    if rng is not None and times is None:
         rng.shuffle(pages)
     with open(path, "wb") as fh:
         hdr = struct.pack("<III", len(pages), trace.cores, trace.hdr_max_pfn)
@@ -113,6 +120,24 @@ def write_binary(trace, path, rng=None):
             for j, e in enumerate(ents):
                 buf[ENTRY_OFF + 16 * j: ENTRY_OFF + 16 * j + 16] = e.to_bytes(16, "little")
             fh.write(buf)
+
+
+def with_ties(trace, rng, name=None):
+    """The same events with TIED timestamps: runs of 1..6 consecutive events share one time stamp, the runs alternate
+    between cpu 0 and cpu 1 (so the page of either cpu is sorted, the buffer as a whole is not).  The parser's sort by
+    time has to be stable: events with equal stamps keep their traced (page) order - a run never straddles two cpus and
+    the pages are written in creation order, so the traced order of tied events is the event order."""
+    evs, times, k, run = [], [], 0, 0
+    for e in trace.events:
+        if run == 0:
+            k += 1
+            run = rng.randrange(1, 7)
+        run -= 1
+        evs.append(Ev(e.alloc, e.pfn, e.order, cpu=k % 2, pid=e.pid, flags=e.flags))
+        times.append(k)
+    t = Trace(name or trace.name + "-ties", trace.hdr_max_pfn, max(2, trace.cores), evs, trace.classing)
+    t.times = times
+    return t
 
 
 # ---------------------------------------------------------------- reference semantics (pfn space only)
